@@ -82,9 +82,15 @@ def main(tier: str) -> int:
                     stmts.append(st + ((g,) if c["PType"] == 3 else ()))
             if not stmts:
                 continue
+            if bi % 5 == 4:
+                # datatype table disabled: only plain, language-tagged and xsd:string-typed literals (none of which needs a datatype entry)
+                XS = "http://www.w3.org/2001/XMLSchema#string"
+                stmts = [tuple((("lit", t[1], "", XS) if (t[0] == "lit" and t[3]) else t) for t in st) for st in stmts]
             store = build_store(stmts, dataset, raw_lex)
             want = impl._items_of_rdflib_store(store)                    # the data as rdflib itself reports it
-            preset = rnd.choice([(c["MaxN"], c["MaxP"], c["MaxD"]), (4000, 150, 32), (8, 0, 0) if not any(t[0] == "lit" and t[3] for st in stmts for t in st) else (16, 0, 4)])
+            preset = rnd.choice([(c["MaxN"], c["MaxP"], c["MaxD"]), (4000, 150, 32), (16, 0, 4)])
+            if bi % 5 == 4:
+                preset = (c["MaxN"], c["MaxP"], 0)
             fs = rnd.choice([1, 2, 5, 250])
             variants = []
             if not dataset:
